@@ -206,10 +206,17 @@ class Wrap(ast.NodeTransformer):
         return node
 
     def visit(self, node):
-        if isinstance(node, (ast.ListComp, ast.DictComp)):
-            return self.rec(node, node)                      # nothing inside is instrumented
-        if isinstance(node, ast.GeneratorExp):
-            return node
+        if isinstance(node, (ast.ListComp, ast.DictComp, ast.GeneratorExp)):
+            # the parts are instrumented too: their values (one per iteration) go to the inner log
+            if isinstance(node, ast.DictComp):
+                node.key = self.visit(node.key)
+                node.value = self.visit(node.value)
+            else:
+                node.elt = self.visit(node.elt)
+            for gen in node.generators:
+                gen.iter = self.visit(gen.iter)
+                gen.ifs = [self.visit(x) for x in gen.ifs]
+            return node if isinstance(node, ast.GeneratorExp) else self.rec(node, node)
         if isinstance(node, ast.Starred):
             node.value = self.visit(node.value)
             return node
@@ -279,11 +286,24 @@ def python_run(case, mod, env_params, env_closure, env_globals):
     exec(compile(module, "<icv>", "exec"), g)
     values = dict(env_closure)
     values.update(env_params)
+    # nodes inside the scope of a comprehension
+    listing = X.subexprs(t)
+    inner = set()
+    for i, s in enumerate(listing):
+        if s[0] == "comp":
+            inner.update(range(i + 1, i + len(X.subexprs(s))))
+
+    def split():
+        return [e for e in log if e[0] not in inner], [e for e in log if e[0] in inner]
     try:
         v = g["__icv_f"](*[values[n] for n in names])
-        return bool(v), log, None
+        if hasattr(v, "__next__"):
+            v = True                  # a generator object: truthy, not consumed
+        outer, inn = split()
+        return bool(v), outer, None, inn
     except Exception as err:  # noqa: BLE001
-        return None, log, type(err).__name__
+        outer, inn = split()
+        return None, outer, type(err).__name__, inn
 
 
 # ------------------------------------------------------------------ message parsing
@@ -371,8 +391,8 @@ def run_case(i, case, mod, plain):
     mod.__dict__.update(env_globals)
     obs = {}
     try:
-        truth, pylog, pyexc = python_run(case, mod, cond_env, env_closure, env_globals)
-        obs.update({"pytruth": truth, "pylog": pylog, "pyexc": pyexc})
+        truth, pylog, pyexc, pyinner = python_run(case, mod, cond_env, env_closure, env_globals)
+        obs.update({"pytruth": truth, "pylog": pylog, "pyexc": pyexc, "pyinner": pyinner[:400]})
         rr = None if plain else RecordingRepr()
         if rr is not None:
             mod.REPRS[i] = rr
